@@ -5,9 +5,12 @@ import (
 	"encoding/json"
 	"fmt"
 	"os"
+	"os/exec"
 	"path/filepath"
 	"runtime"
 	"strings"
+	"sync"
+	"sync/atomic"
 	"syscall"
 	"time"
 
@@ -20,6 +23,7 @@ import (
 func init() {
 	Registry["C11"] = C11
 	children["disk-script"] = diskScriptChild
+	children["disk-barriers"] = diskBarriersChild
 }
 
 type fdOp struct {
@@ -240,6 +244,14 @@ func C11(c *ev.Ctx) {
 			table = append(table, fdBehaviour{Prior: prior, H: h})
 		}
 	}
+	var failTable []fdBehaviour
+	for _, prior := range []int{1, 3, 4, 5, 8, 9, 12, 13} {
+		for n := 0; n <= 3; n++ {
+			for _, f := range []string{"ftruncate", "fstat"} {
+				failTable = append(failTable, fdBehaviour{Prior: prior, H: []fdOp{{Op: "open", A: n, Fail: f, R: -1}}})
+			}
+		}
+	}
 	if len(behs) > nb {
 		behs = behs[:nb]
 	}
@@ -379,6 +391,32 @@ func C11(c *ev.Ctx) {
 						map[string]string{"behaviour.json": string(hb), "strace.log": run.Log})
 					return
 				}
+				if failing && op.Op == "open" && i == 0 && len(b.H) == 1 && b.Prior != 99 && b.Prior > 0 {
+					// FileDisk.tla: a failed open leaves the image as it was. Reopen it (new process, no fault) with the
+					// number of blocks the prior image covers and compare every block with the prior content.
+					nOld := (b.Prior + modelBS - 1) / modelBS
+					after := fdBehaviour{Prior: b.Prior, H: []fdOp{{Op: "open", A: nOld, Fail: "none"}}}
+					for a := 0; a < nOld; a++ {
+						after.H = append(after.H, fdOp{Op: "read", A: a, Fail: "none"})
+					}
+					after.H = append(after.H, fdOp{Op: "close"})
+					ar := runSegment(after, 0, len(after.H), nil)
+					ao := parseChildOut(ar.Stdout)
+					evaluations++
+					for k, aop := range after.H {
+						if aop.Op != "read" {
+							continue
+						}
+						want := expectedPrior(b.Prior, nOld, aop.A)
+						got, ok := ao[k]
+						if !ok || got[0] == 1 || (want != -5 && got[1] != want) || (want == -5 && got[1] != -5) {
+							hb, _ := json.MarshalIndent(b, "", " ")
+							c.Report("filedisk.open."+op.Fail+".image-lost", fmt.Sprintf("prior image %d model bytes: NewFileDisk(%d blocks) failed (%s injected) and afterwards the image no longer holds its content: block %d reads as class %v, want %d (a failed open must leave the image as it was)\nchild output:\n%s", b.Prior, op.A, op.Fail, aop.A, got, want, ar.Stdout),
+								map[string]string{"behaviour.json": string(hb), "strace.log": ar.Log})
+							return
+						}
+					}
+				}
 				if failing {
 					return // the process panicked / open failed: rest of the behaviour is moot
 				}
@@ -388,6 +426,12 @@ func C11(c *ev.Ctx) {
 	}
 	for _, b := range table {
 		check(b, true)
+		if c.NViolations() > 4 {
+			break
+		}
+	}
+	for _, b := range failTable {
+		check(b, false)
 		if c.NViolations() > 4 {
 			break
 		}
@@ -415,6 +459,7 @@ func C11(c *ev.Ctx) {
 			break
 		}
 	}
+	concurrentBarriers(c)
 	// validate all strace logs against DiskSyscallTrace
 	if len(sysEvs) > 0 {
 		tv := validateTrace(dir, "DiskSyscallTrace", sysEvs, false, 10*time.Minute)
@@ -444,4 +489,69 @@ func keysOf(m map[string]bool) []string {
 	}
 	sortStrings(ks)
 	return ks
+}
+
+// diskBarriersChild: several goroutines call Write/Barrier on one FileDisk at the same time; prints how many Barrier
+// calls returned normally and how many panicked. Under `strace -e inject=fsync:error=EIO` (every fsync fails) not a
+// single Barrier may return normally, whoever issued the system call.
+func diskBarriersChild(args []string) int {
+	path := args[0]
+	d, err := disk.NewFileDisk(path, 8)
+	if err != nil {
+		fmt.Println("OPENFAIL", err)
+		return 3
+	}
+	var okN, panicN atomic.Int64
+	var wg sync.WaitGroup
+	for g := 0; g < 6; g++ {
+		wg.Add(1)
+		go func(g int) {
+			defer wg.Done()
+			for i := 0; i < 300; i++ {
+				if i%3 == 0 {
+					catchPanic(func() { d.Write(uint64(g%8), pattern(g+1)) })
+				}
+				if catchPanic(func() { d.Barrier() }) {
+					panicN.Add(1)
+				} else {
+					okN.Add(1)
+				}
+			}
+		}(g)
+	}
+	wg.Wait()
+	fmt.Printf("BARRIERS ok=%d panicked=%d\n", okN.Load(), panicN.Load())
+	return 0
+}
+
+// concurrentBarriers runs the child without and with failing fsync.
+func concurrentBarriers(c *ev.Ctx) {
+	self, _ := os.Executable()
+	img := filepath.Join(c.Scratch, "barriers.img")
+	for _, failing := range []bool{false, true} {
+		_ = os.Remove(img)
+		a := []string{"-f", "-qq", "-o", "/dev/null", "-e", "trace=fsync,fdatasync"}
+		if failing {
+			a = append(a, "-e", "inject=fsync,fdatasync:error=EIO")
+		}
+		a = append(a, self, "-child", "disk-barriers", img)
+		out, err, timedOut := runWithDeadline(exec.Command("strace", a...), 5*time.Minute)
+		var okN, pN int
+		got := false
+		for _, ln := range strings.Split(out, "\n") {
+			if n, _ := fmt.Sscanf(ln, "BARRIERS ok=%d panicked=%d", &okN, &pN); n == 2 {
+				got = true
+			}
+		}
+		switch {
+		case timedOut && hangInside(out, "machine/disk"):
+			c.Violation("filedisk.barrier.concurrent-hang", "concurrent Barrier calls never finished (failing fsync="+fmt.Sprint(failing)+")\n"+tlc.Tail(out, 30), nil)
+		case !got:
+			c.Inconclusive("disk-barriers child gave no result (%v): %s", err, tlc.Tail(out, 10))
+		case failing && okN > 0:
+			c.Violation("filedisk.barrier.fsync.concurrent", fmt.Sprintf("every fsync fails (EIO injected by strace) and 6 goroutines call Barrier concurrently: %d of %d Barrier calls returned normally (a failed flush must never be reported as success, whoever issued the system call)", okN, okN+pN), nil)
+		case !failing && pN > 0:
+			c.Violation("filedisk.barrier.concurrent", fmt.Sprintf("%d of %d concurrent Barrier calls panicked although nothing failed", pN, okN+pN), nil)
+		}
+	}
 }
